@@ -340,12 +340,15 @@ func (p *parser) readString() (string, error) {
 					if b == '"' {
 						return buf.String(), nil
 					}
+					// Two quotes that do not end the string. What follows
+					// them is looked at like any other byte of the string,
+					// it can be a backslash or the end of the input.
 					buf.WriteByte('"')
 					buf.WriteByte('"')
-					buf.WriteByte(b)
+					p.putBack(b)
 				} else {
 					buf.WriteByte('"')
-					buf.WriteByte(b)
+					p.putBack(b)
 				}
 			case '\\':
 				var r rune
